@@ -45,7 +45,16 @@ func TestMain(m *testing.M) {
 
 func runChild() {
 	var spec ChildSpec
-	if err := json.Unmarshal([]byte(os.Getenv("VERIF_CHILD_SPEC")), &spec); err != nil {
+	raw := os.Getenv("VERIF_CHILD_SPEC")
+	if strings.HasPrefix(raw, "@") {
+		b, err := os.ReadFile(raw[1:])
+		if err != nil {
+			fmt.Fprintln(os.Stderr, "child spec file:", err)
+			os.Exit(3)
+		}
+		raw = string(b)
+	}
+	if err := json.Unmarshal([]byte(raw), &spec); err != nil {
 		fmt.Fprintln(os.Stderr, "bad child spec:", err)
 		os.Exit(3)
 	}
